@@ -196,6 +196,16 @@ func (ex *Exec) eval(env *Env, e Expr) Val {
 		n.phiOver = nil
 		return ex.eval(&n, x.X)
 	case *EUnary:
+		if x.Op == "&" {
+			// address of a field: &p.f  (interior pointer)
+			sel, ok := x.X.(*ESel)
+			if !ok {
+				sfail("& needs a field selector")
+			}
+			base := ex.eval(env, sel.X)
+			loc := ex.fieldLoc(base, sel.Sel)
+			return Val{T: types.NewPointer(loc.T), Loc: loc}
+		}
 		v := ex.eval(env, x.X)
 		switch x.Op {
 		case "!":
